@@ -141,9 +141,13 @@ class St:
 
 
 class Cursor:
-    def __init__(self, prog, f, string_params, fresh_calls=('strdup', 'qstrtrim', 'qfile_load', 'qstrdupf')):
+    def __init__(self, prog, f, string_params, fresh_calls=('strdup', 'qstrtrim', 'qfile_load', 'qstrdupf'), init_lo=None, depth=0):
         self.prog = prog
         self.f = f
+        self.init_lo = init_lo or {}         # parameter name -> window known by the caller (helper analysed in its context)
+        self.depth = depth
+        self.ret_lo = {}                     # return class ('T'/'F'/'?') -> {param name: minimal window at that return}
+        self._summaries = {}
         self.cfg = f.cfg
         self.string_params = string_params
         self.viol = {}
@@ -162,11 +166,42 @@ class Cursor:
                 v = var_of(children(n)[0])
                 if v is not None and lit(children(n)[1]) is None:
                     bad.add(v[0])
-            elif k == 'CompoundAssignOperator' or (k == 'UnaryOperator' and n.get('opcode') in ('++', '--', '&')):
+            elif k == 'CompoundAssignOperator' or (k == 'UnaryOperator' and n.get('opcode') == '&'):
                 v = var_of(children(n)[0])
                 if v is not None:
                     bad.add(v[0])
-        self.flags = set(cand) - bad
+        # flag locals and small counters: only ever assigned literals or stepped by one (their exact value is part of the
+        # path state, values outside -1..8 are forgotten).  A stepped variable qualifies only if it is compared with literals
+        # exclusively (a quartet position, not a loop index running to a variable bound).
+        stepped_vars, nonlit_cmp = set(), set()
+        for n in walk(f.body):
+            k = n.get('kind')
+            if k == 'UnaryOperator' and n.get('opcode') in ('++', '--'):
+                v = var_of(children(n)[0])
+                if v is not None:
+                    stepped_vars.add(v[0])
+            elif k == 'BinaryOperator' and n.get('opcode') in ('<', '<=', '>', '>=', '==', '!='):
+                a_, b_ = children(n)
+                for x_, y_ in ((a_, b_), (b_, a_)):
+                    x0 = strip(x_)
+                    if x0.get('kind') == 'UnaryOperator' and x0.get('opcode') in ('++', '--'):
+                        x0 = strip(children(x0)[0])
+                    v = var_of(x0)
+                    if v is not None and lit(y_) is None:
+                        nonlit_cmp.add(v[0])
+        self.flags = set(cand) - bad - (stepped_vars & nonlit_cmp)
+        compared_lit = set()
+        for n in walk(f.body):
+            if n.get('kind') == 'BinaryOperator' and n.get('opcode') in ('<', '<=', '>', '>=', '==', '!='):
+                a_, b_ = children(n)
+                for x_, y_ in ((a_, b_), (b_, a_)):
+                    x0 = strip(x_)
+                    if x0.get('kind') == 'UnaryOperator' and x0.get('opcode') in ('++', '--'):
+                        x0 = strip(children(x0)[0])
+                    v = var_of(x0)
+                    if v is not None and lit(y_) is not None:
+                        compared_lit.add(v[0])
+        self.flags -= (stepped_vars - compared_lit)       # a stepped variable that is never tested against a literal: not tracked
         # index variables used as s[i]; count-bounded index loops (i < n with n another variable) are not NUL scans
         self.index_vars = set()
         for n in walk(f.body):
@@ -199,6 +234,45 @@ class Cursor:
                         if iv and iv[0] in bounded:
                             self.exempt_subs.add(id(x))
 
+
+    def helper_summary(self, call, st, node):
+        """call: a call to a static function of this unit that is handed tracked string cursors.  The helper is analysed in
+        the caller's context (the windows known here become its entry windows); its violations are reported at its own
+        lines; returns {cursor var id: {'T': window after a non-zero return, 'F': ... after a zero return}} or None."""
+        if self.depth >= 2:
+            return None
+        nm = self.prog.callee_name(call)
+        g = self.prog.resolve_name(self.f.unit, nm) if nm else None
+        if g is None or getattr(g, 'body', None) is None or not g.static:
+            return None
+        args = children(call)[1:]
+        bind = {}
+        for p, a in zip(g.params, args):
+            if qtype(p) in CHARPTR:
+                po = ptr_off(a)
+                if po and po[1] == 0 and st.window(po[0][0]) is not None:
+                    # the window the caller knows for this cursor (through its own facts or its distance to another cursor)
+                    bind[p.get('name')] = (po[0][0], st.window(po[0][0]))
+        if not bind:
+            return None
+        key = (g.key, tuple(sorted((k, v[1]) for k, v in bind.items())))
+        res = self._summaries.get(key)
+        if res is None:
+            sub = Cursor(self.prog, g, list(bind), init_lo={k: v[1] for k, v in bind.items()}, depth=self.depth + 1)
+            try:
+                sub.run()
+            except RuntimeError:
+                return None
+            res = (sub.ret_lo, sub.viol, sub.derefs)
+            self._summaries[key] = res
+        ret_lo, viol, nder = res
+        self.derefs += nder
+        for (line, what), nd in viol.items():
+            self.viol.setdefault((line, '%s (in %s, called from line %s)' % (what, g.name, node.line)), nd)
+        out = {}
+        for pname, (vid, _l) in bind.items():
+            out[vid] = {cls: d.get(pname) for cls, d in ret_lo.items() if pname in d}
+        return out
 
     def _is_raw_buffer(self, e):
         e = strip(e)
@@ -278,7 +352,11 @@ class Cursor:
                 else:
                     for cur in self._idx_cursors(st, lv[0]):
                         st.shift(cur, dlt)
-                    st.m.pop(('fl', lv[0]), None)
+                    fl = st.m.get(('fl', lv[0]))
+                    if fl is not None and lv[0] in self.flags and -1 <= fl + dlt <= 8:
+                        st.m[('fl', lv[0])] = fl + dlt
+                    else:
+                        st.m.pop(('fl', lv[0]), None)
             return
         if k == 'UnaryOperator' and e.get('opcode') == '*':
             inner = strip(children(e)[0])
@@ -297,6 +375,8 @@ class Cursor:
         if k == 'CallExpr':
             for a in children(e)[1:]:
                 self.eval(a, st, node)
+            if node is not None and node.kind != 'cond':
+                self.helper_summary(e, st, node)
             return
         for c in children(e):
             self.eval(c, st, node)
@@ -384,6 +464,29 @@ class Cursor:
             if truth:
                 nonzero_fact(d)
             return st
+        # a predicate helper over the cursor: `if (helper(p, ...))`, `if (!helper(...))`, `helper(...) == false`
+        hc, pol = None, truth
+        if k == 'CallExpr':
+            hc = s
+        elif k == 'UnaryOperator' and s.get('opcode') == '!' and strip(children(s)[0]).get('kind') == 'CallExpr':
+            hc, pol = strip(children(s)[0]), not truth
+        elif k == 'BinaryOperator' and s.get('opcode') in ('==', '!='):
+            a_, b_ = children(s)
+            for x_, y_ in ((a_, b_), (b_, a_)):
+                if strip(x_).get('kind') == 'CallExpr' and lit(y_) is not None:
+                    hc = strip(x_)
+                    eqv = (s['opcode'] == '==') == truth          # call == literal holds on this edge
+                    pol = eqv if lit(y_) != 0 else not eqv
+        if hc is not None:
+            summ = self.helper_summary(hc, st, node)
+            if summ:
+                for vid, byc in summ.items():
+                    w = byc.get('T' if pol else 'F')
+                    if w is None and '?' in byc:
+                        w = byc['?']
+                    if w is not None and (st.lo(vid) is None or w > st.lo(vid)):
+                        st.setlo(vid, w)
+                return st
         if k == 'CallExpr':
             # <ctype.h> predicate (function form) true on a byte => the byte is not NUL
             nm = self.prog.callee_name(s)
@@ -416,6 +519,25 @@ class Cursor:
                 elif eq and vv[0] in self.flags:
                     st.m[('fl', vv[0])] = cc
                 return st
+        def stepped(x):
+            """(var, value used in the comparison) for `++v`, `v++`, `--v`, `v--` (the step itself was applied by eval)"""
+            x0 = strip(x)
+            if x0.get('kind') == 'UnaryOperator' and x0.get('opcode') in ('++', '--'):
+                v0 = var_of(children(x0)[0])
+                if v0 is not None:
+                    fl0 = st.m.get(('fl', v0[0]))
+                    if fl0 is None:
+                        return v0, None
+                    d0 = 1 if x0['opcode'] == '++' else -1
+                    return v0, (fl0 - d0 if x0.get('isPostfix') else fl0)
+            return None, None
+        if k == 'BinaryOperator' and s.get('opcode') in ('>', '<', '>=', '<=', '==', '!='):
+            a, b = children(s)
+            sv, val = stepped(a)
+            cb = lit(b)
+            if sv is not None and val is not None and cb is not None:
+                res = {'>': val > cb, '<': val < cb, '>=': val >= cb, '<=': val <= cb, '==': val == cb, '!=': val != cb}[s['opcode']]
+                return st if res == truth else None
         if k == 'BinaryOperator' and s.get('opcode') in ('>', '<', '>=', '<='):
             a, b = children(s)
             va, cb = var_of(a), lit(b)
@@ -446,7 +568,7 @@ class Cursor:
         st0 = St()
         for p in self.f.params:
             if qtype(p) in CHARPTR and p.get('name') in self.string_params:
-                st0.setlo(p['id'], 0)
+                st0.setlo(p['id'], self.init_lo.get(p.get('name'), 0))
                 self.names[p['id']] = p['name']
         states[cfg.entry.id].add(st0.key())
         work = collections.deque([(cfg.entry, st0)])
@@ -503,6 +625,14 @@ class Cursor:
                     elif a.get('kind') == 'ReturnStmt':
                         if children(a):
                             self.eval(children(a)[0], st2, n)
+                            v = lit(children(a)[0])
+                            cls = '?' if v is None else ('T' if v != 0 else 'F')
+                            for p in self.f.params:
+                                if p.get('name') in self.string_params:
+                                    l = st2.lo(p['id'])
+                                    cur = self.ret_lo.setdefault(cls, {})
+                                    l = -2 if l is None else l
+                                    cur[p['name']] = l if p['name'] not in cur else min(cur[p['name']], l)
                     else:
                         self.eval(a, st2, n)
                 for (s, lab) in n.succs:
